@@ -45,11 +45,11 @@ package webrtc
 //@ modifies nothing
 //@ func (*SCTPTransport).GetSctpInit
 //@ trusted
-//@ props C07
+//@ props C07 C12
 //@ modifies nothing
 //@ func (*RTPSender).setNegotiated
 //@ trusted
-//@ props C07
+//@ props C07 C12
 //@ modifies r.negotiated
 //@ func (*RTPTransceiver).Sender
 //@ inline
@@ -143,11 +143,11 @@ package webrtc
 //@ modifies nothing
 //@ func (*sdp.MediaDescription).WithPropertyAttribute
 //@ trusted
-//@ props C06 C07
+//@ props C06 C07 C12
 //@ modifies nothing
 //@ func (*sdp.MediaDescription).WithValueAttribute
 //@ trusted
-//@ props C06 C07
+//@ props C06 C07 C12
 //@ modifies nothing
 //@ func (*sdp.SessionDescription).WithValueAttribute
 //@ trusted
@@ -158,3 +158,57 @@ package webrtc
 //@ props C06 C07
 //@ ensures result == ufbool("bundleok", arg0)
 //@ modifies nothing
+
+// ---- C12: an offer without a remote description lists exactly the local transceivers
+// (Unified Plan): one section per transceiver (count, loop invariant), then one data section
+// exactly when a data channel was requested or AlwaysNegotiateDataChannels is set.
+//@ func (*PeerConnection).generateUnmatchedSDP #unified
+//@ props C12
+//@ nosafety
+//@ requires pcValid(pc) && pc.sctpTransport != nil && pc.configuration.SDPSemantics != SDPSemanticsPlanB
+//@ atcall populateSDP assert len(callarg10) == len(transceivers) + ite(pc.configuration.AlwaysNegotiateDataChannels || pc.sctpTransport.dataChannelsRequested != 0, 1, 0)
+//@ loop 1 invariant len(mediaSections) == rangeindex + 1 && rangeindex < len(transceivers)
+//@ loop 1 step len(mediaSections) == loophead(len(mediaSections)) + 1 && !mediaSections[len(mediaSections)-1].data && len(mediaSections[len(mediaSections)-1].transceivers) == 1 && mediaSections[len(mediaSections)-1].transceivers[0] == t && mediaSections[len(mediaSections)-1].id == t.Mid()
+
+// The m-line of a transceiver section names the transceiver's kind.
+//@ func addTransceiverSDP #kind
+//@ props C12
+//@ nosafety
+//@ atcall sdp.NewJSEPMediaDescription assert transceiver.kind == RTPCodecTypeAudio || transceiver.kind == RTPCodecTypeVideo ==> callarg0 == transceiver.kind.String()
+
+// A sending track is announced with its stream and track ids and with the SSRCs of the
+// sender's encodings: per encoding one media source for the SSRC and, under Unified Plan,
+// one each for a non-zero RTX / FEC SSRC, all labelled with the track's stream id and id,
+// and one msid attribute '<streamID> <trackID>'.
+// Assumed: a track's ids are functions of the track; the builders only append.
+//@ func (TrackLocal).StreamID
+//@ trusted
+//@ props C12
+//@ ensures result == ufstr("streamIdOf", recv)
+//@ modifies nothing
+//@ func (TrackLocal).ID
+//@ trusted
+//@ props C12
+//@ ensures result == ufstr("trackIdOf", recv)
+//@ modifies nothing
+//@ func (*sdp.MediaDescription).WithMediaSource
+//@ trusted
+//@ props C12
+//@ ghost msrcCalls += 1
+//@ modifies nothing
+//@ func (*RTPSender).GetParameters
+//@ trusted
+//@ props C12
+//@ modifies nothing
+//@ func (*RTPSender).Track
+//@ trusted
+//@ props C12
+//@ modifies nothing
+
+//@ func addSenderSDP
+//@ props C12
+//@ nosafety
+//@ atcall (*sdp.MediaDescription).WithMediaSource assert callarg2 == ufstr("streamIdOf", track) && callarg3 == ufstr("streamIdOf", track) && callarg4 == ufstr("trackIdOf", track)
+//@ atcall (*sdp.MediaDescription).WithMediaSource assert callarg1 == uint32(encoding.SSRC) || (!isPlanB && encoding.RTX.SSRC != 0 && callarg1 == uint32(encoding.RTX.SSRC)) || (!isPlanB && encoding.FEC.SSRC != 0 && callarg1 == uint32(encoding.FEC.SSRC))
+//@ atcall (*sdp.MediaDescription).WithPropertyAttribute assert callarg1 == "msid:" + ufstr("streamIdOf", track) + " " + ufstr("trackIdOf", track)
+//@ loop 1 step ghost(msrcCalls) == loophead(ghost(msrcCalls)) + 1 + ite(!isPlanB && encoding.RTX.SSRC != 0, 1, 0) + ite(!isPlanB && encoding.FEC.SSRC != 0, 1, 0)
